@@ -799,10 +799,12 @@ def fold_expr(fn_node: ast.AST, e: ast.AST, env: dict[str, Any], consts: Any = N
         d = single_defs(fn_node).get(e.id) if fn_node is not None else None
         if d is not None:
             return fold_expr(fn_node, d, env, consts, f, depth + 1)
+    if isinstance(e, (ast.Tuple, ast.List, ast.Set)):
+        return tuple(fold_expr(fn_node, x, env, consts, f, depth + 1) for x in e.elts)
     if isinstance(e, (ast.Name, ast.Attribute)) and consts is not None and f is not None:
         try:
             v = consts.eval_in(f, e)
-            if isinstance(v, (int, float, str, bool)) or v is None:
+            if isinstance(v, (int, float, str, bool, tuple, list, set, frozenset, dict)) or v is None:
                 return v
         except Exception:  # noqa: BLE001
             pass
@@ -831,7 +833,7 @@ def fold_expr(fn_node: ast.AST, e: ast.AST, env: dict[str, Any], consts: Any = N
         left = fold_expr(fn_node, e.left, env, consts, f, depth + 1)
         for op, c in zip(e.ops, e.comparators):
             right = fold_expr(fn_node, c, env, consts, f, depth + 1)
-            ok = {ast.Lt: lambda: left < right, ast.LtE: lambda: left <= right, ast.Gt: lambda: left > right, ast.GtE: lambda: left >= right, ast.Eq: lambda: left == right, ast.NotEq: lambda: left != right, ast.Is: lambda: left is right, ast.IsNot: lambda: left is not right}.get(type(op))
+            ok = {ast.Lt: lambda: left < right, ast.LtE: lambda: left <= right, ast.Gt: lambda: left > right, ast.GtE: lambda: left >= right, ast.Eq: lambda: left == right, ast.NotEq: lambda: left != right, ast.Is: lambda: left is right, ast.IsNot: lambda: left is not right, ast.In: lambda: left in right, ast.NotIn: lambda: left not in right}.get(type(op))
             if ok is None:
                 raise Unfoldable(txt)
             if not ok():
